@@ -626,7 +626,12 @@ func c04Mutate(r *Rand, t *cnode) []byte {
 			arrays = append(arrays, k)
 		}
 	})
-	switch r.Intn(8) {
+	switch r.Intn(9) {
+	case 8: // a tag number in front of a field / list / the whole message (not a shape the type allows,
+		// except #6.24 on byte fields); built-in tags 0..3 (content checked by fxamacker) are not used
+		k := t.nth(r.Intn(t.count()))
+		inner := k.clone()
+		*k = *cTag(uint64(Pick(r, 6, 24, 30, 100, 258, 259, 1000, 55799)), inner)
 	case 0: // arity +1 somewhere
 		a := arrays[r.Intn(len(arrays))]
 		a.kids = append(a.kids, Pick(r, cU(0), cB([]byte{1}), cA(), cNull()))
